@@ -1,4 +1,5 @@
 import Cello.Str
+import Cello.Hash
 import CelloGen.Str
 import Driver.Common
 /- driver for engine `str` (C16): interprets the op files of harness/h_str.c on the model `Cello.Str` with the
@@ -7,7 +8,10 @@ import Driver.Common
    line: does the model's text equal the specification's (`Spec.step` on the abstract string kept beside it), is the
    state well-formed, were all accesses in bounds.  Formatted writes through `print_to_with` / `show_to` (`pf`, `show`) run
    `Cello.Str.emit` with the position arithmetic regenerated from src/Show.c (`CelloGen.Str.posParams`); their R line also
-   says whether the returned position is where the written text ends. -/
+   says whether the returned position is where the written text ends.
+   `alias …` ops (operands that point into the target's own allocation) run `stepA` with `mv = true`: the harness is built with
+   AddressSanitizer, whose `realloc` always moves the block; an undefined outcome is printed as `ub`.
+   `hash` prints the value of `Cello.Hash.hashData` (engine `hash`'s model of `hash_data`) over the bytes `String_Hash` hands over. -/
 open Cello.Str
 
 def P : Params := CelloGen.Str.params
@@ -87,6 +91,7 @@ def outcomeStr : Outcome → String
   | .raised .ClassError => "ClassError"
   | .raised .FormatError => "FormatError"
   | .rejected => "rejected"
+  | .ub _ => "ub"
 
 inductive Frag where
   | lit (t : List Byte) | str (t : List Byte) | shown (t : List Byte)
@@ -173,12 +178,63 @@ def hasCall (items : List Item) : Bool := !(callTexts items).isEmpty
 
 def bad : IO Unit := IO.println "O bad-op"
 
+def ubStr : UB → String
+  | .useAfterFree => "use-after-free"
+  | .overlap => "overlap"
+  | .outOfBounds => "out-of-bounds"
+
+/-- `self` | `v<off>` with `off ≤ len` -/
+def parseSrc (t : String) (n : Nat) : Option Src :=
+  if t = "self" then some .self
+  else match t.toList with
+    | 'v' :: d => match num (String.ofList d) with
+      | some off => if off ≤ n && d.length ≤ 7 then some (.view off) else none
+      | none => none
+    | _ => none
+
+/-- `alias <what> <self|v<off>> <T> [pos]`: the call `what(s, obj)` on a fresh `s = new(String, $S(T))` where `obj` is `s` itself or
+    `$S(c_str(s) + off)`; `print` is `print_to(s, pos, "%s", obj)`.  The allocator of the harness (AddressSanitizer) always moves. -/
+def aliasOp (w : World) (rest : List String) : IO World := do
+  match rest with
+  | what :: st :: t :: more =>
+    let some x := dehex t | do bad; return w
+    if x.length > 512 then bad; return w
+    let some src := parseSrc st x.length | do bad; return w
+    let s := (new P J (some x)).st
+    let mutating := what = "assign" || what = "concat" || what = "append" || what = "print"
+    -- the aliased mutators on an empty text copy one NUL onto itself: undefined only on paper, not run
+    if mutating && x.isEmpty then bad; return w
+    let posOk : Option Nat := match what, more with
+      | "print", [pt] => (num pt).bind fun p => if p ≤ x.length && pt.length ≤ 8 then some p else none
+      | "print", _ => none
+      | _, [] => some 0
+      | _, _ => none
+    let some pos := posOk | do bad; return w
+    let res : Option Res := match what with
+      | "assign" => some (stepA P J true s (.assign src))
+      | "concat" => some (stepA P J true s (.concat src))
+      | "append" => some (stepA P J true s (.append src))
+      | "print" => some (stepA P J true s (.formatS pos src))
+      | "rem" => some (stepA P J true s (.rem src))
+      | _ => none
+    match what, res with
+    | _, some r =>
+      match r.out with
+      | .ub why =>
+        IO.println s!"O alias {what} {st} ub"
+        IO.println s!"R alias {what} {st} model=ub:{ubStr why}"
+      | o =>
+        let oc := match o with | .ok n => if what = "print" then s!"ret={n}" else "ok" | o => outcomeStr o
+        IO.println s!"O alias {what} {st} {oc} len={r.st.abs.length} cap={r.st.cap} s={preview r.st.abs} fnv={hex64 (fnv64 r.st.buf)}"
+      return { w with nMut := w.nMut + 1 }
+    | "mem", none => IO.println s!"O alias mem {st} {if mem s (src.read s) then 1 else 0}"; return w
+    | "cmp", none => IO.println s!"O alias cmp {st} {cmp s (src.read s)}"; return w
+    | _, none => bad; return w
+  | _ => bad; return w
+
 def stepOp (w : World) (toks : List String) : IO World := do
   match toks with
-  | "alias" :: rest =>
-    match rest with
-    | [_, t] => if (dehex t).isSome then return w else bad; return w
-    | _ => bad; return w
+  | "alias" :: rest => aliasOp w rest
   | op :: kt :: rest =>
     let some k := objIx kt | do bad; return w
     let live := w.get k
@@ -341,9 +397,9 @@ def stepOp (w : World) (toks : List String) : IO World := do
       if j = k then bad; return w
       IO.println s!"O cmps {k} {cmp s sj.abs}"; return w
     | "hash", [], some s =>
-      -- value-only dependence: the bytes hashed are exactly the abstract string
+      -- value-only dependence: the bytes hashed are exactly the abstract string; the value is `hash_data` (C10's model) of them
       let same := hash id s == w.getSpec k
-      IO.println s!"O hash {k} {if same then "same" else "diff"}"; return w
+      IO.println s!"O hash {k} {hex64 (hash Cello.Hash.hashData s)} {if same then "same" else "diff"}"; return w
     | _, _, _ => bad; return w
   | _ => bad; return w
 
